@@ -36,6 +36,7 @@ type pdHint struct {
 type pdIA struct {
 	iaid  [4]byte
 	hints []pdHint
+	other int // 1: a status-code sub-option, 2: an unknown sub-option next to (or instead of) the IAPrefix options
 }
 
 // wire form of an IA_PD option payload
@@ -60,6 +61,12 @@ func iapdPayload(ia pdIA) []byte {
 		binary.Write(&b, binary.BigEndian, uint16(dhcpv6.OptionIAPrefix))
 		binary.Write(&b, binary.BigEndian, uint16(p.Len()))
 		b.Write(p.Bytes())
+	}
+	switch ia.other {
+	case 1: // Status Code option (13): status 0, empty message
+		b.Write([]byte{0, 13, 0, 2, 0, 0})
+	case 2: // an option code nobody knows
+		b.Write([]byte{0xfd, 0xe8, 0, 3, 1, 2, 3})
 	}
 	return b.Bytes()
 }
@@ -95,6 +102,8 @@ func runPrefix(c *Ctx) {
 		p2 := pdHint{absentPrefix: true, class: "length-0"}
 		runPrefixHistory(c, 9000+2*k, pl, 10, []pfxScript{
 			{client: 0, ias: []pdIA{{iaid: [4]byte{0, 0, 0, 1}}}},
+			{client: 0, ias: []pdIA{{iaid: [4]byte{0, 0, 0, 1}, other: 1}}},
+			{client: 0, ias: []pdIA{{iaid: [4]byte{0, 0, 0, 1}, other: 2}}},
 			{client: 0, ias: []pdIA{{iaid: [4]byte{0, 0, 0, 1}, hints: []pdHint{p2}}}},
 			{client: 0, ias: []pdIA{{iaid: [4]byte{0, 0, 0, 1}}}},
 			{client: 1, ias: []pdIA{{iaid: [4]byte{0, 0, 0, 1}}, {iaid: [4]byte{0, 0, 0, 2}, hints: []pdHint{{ip: net.IPv6zero, plen: pl.page + 8, class: "length-only"}}}}},
@@ -240,6 +249,10 @@ func runPrefixHistory(c *Ctx, hi int, pl pfxPool, nmsgs int, script []pfxScript)
 						h.class = "duplicate"
 					}
 					ia.hints = append(ia.hints, h)
+				}
+				if r.Pct(25) {
+					ia.other = 1 + r.Intn(2) // e.g. a renewing client echoing the status code it was sent
+					c.Count("iapd-with-other-suboption")
 				}
 				sc.ias = append(sc.ias, ia)
 			}
@@ -624,6 +637,77 @@ func runPrefixConcurrent(c *Ctx, rounds int) {
 		// afterwards the client(s) must get the same prefix again
 	}
 	c.Dist["concurrent-prefix-rounds"] = rounds
+}
+
+// slowAlloc sleeps inside Allocate (the caller holds the plugin lock meanwhile).  A goroutine that
+// has waited for a sync.Mutex for more than 1 ms is handed the lock directly when it is released,
+// so if the handler gave the lock up between the IA_PDs of one message, the other message would
+// get in at exactly that point.
+type slowAlloc struct {
+	inner interface {
+		Allocate(hint net.IPNet) (net.IPNet, error)
+		Free(net.IPNet) error
+	}
+}
+
+func (s *slowAlloc) Allocate(hint net.IPNet) (net.IPNet, error) {
+	time.Sleep(3 * time.Millisecond)
+	return s.inner.Allocate(hint)
+}
+func (s *slowAlloc) Free(p net.IPNet) error { return s.inner.Free(p) }
+
+// runPrefixMultiIA: two clients each send one message with four IA_PDs hinting the four blocks of
+// the pool, at the same moment.  Whichever message is handled first takes all four blocks; in every
+// one-at-a-time order of the two MESSAGES one client gets four prefixes and the other none.
+func runPrefixMultiIA(c *Ctx, rounds int) {
+	for ri := 0; ri < rounds; ri++ {
+		_, pn, _ := net.ParseCIDR("2001:db8:0:100::/62")
+		inner, err := bitmap.NewBitmapAllocator(*pn, 64)
+		if err != nil {
+			return
+		}
+		h := prefix.NewVerifHandler(&slowAlloc{inner: inner})
+		mk := func(cl byte) dhcpv6.DHCPv6 {
+			m := &dhcpv6.Message{MessageType: dhcpv6.MessageTypeSolicit}
+			m.AddOption(dhcpv6.OptClientID(&dhcpv6.DUIDLL{HWType: iana.HWTypeEthernet, LinkLayerAddr: net.HardwareAddr{2, 8, 9, byte(ri), 0, cl}}))
+			for k := 0; k < 4; k++ {
+				ip := net.ParseIP(fmt.Sprintf("2001:db8:0:10%d::", k))
+				m.AddOption(&dhcpv6.OptionGeneric{OptionCode: dhcpv6.OptionIAPD, OptionData: iapdPayload(pdIA{iaid: [4]byte{0, 0, 0, byte(k + 1)}, hints: []pdHint{{ip: ip, plen: 64}}})})
+			}
+			req, _ := dhcpv6.FromBytes(m.ToBytes())
+			return req
+		}
+		got := make([][]string, 2)
+		var wg sync.WaitGroup
+		start := make(chan struct{})
+		for k := 0; k < 2; k++ {
+			wg.Add(1)
+			go func(k int) {
+				defer wg.Done()
+				defer func() { recover() }()
+				req := mk(byte(k + 1))
+				<-start
+				out, _ := h.Handle(req, &dhcpv6.Message{MessageType: dhcpv6.MessageTypeAdvertise})
+				if out == nil {
+					return
+				}
+				om, _ := out.GetInnerMessage()
+				for _, ia := range om.Options.IAPD() {
+					for _, p := range ia.Options.Prefixes() {
+						got[k] = append(got[k], p.Prefix.String())
+					}
+				}
+			}(k)
+		}
+		close(start)
+		wg.Wait()
+		c.Evals++
+		c.Count("multi-iapd-round")
+		if len(got[0]) != 0 && len(got[1]) != 0 {
+			c.vio("C16", "message-not-atomic", fmt.Sprintf("two messages with four IA_PDs each, handled concurrently on a 4-block pool, were given %d and %d prefixes (%v / %v): in every one-at-a-time order of the messages one client gets all four", len(got[0]), len(got[1]), got[0], got[1]),
+				map[string]interface{}{"pool": "2001:db8:0:100::/62 /64", "client 1": got[0], "client 2": got[1]})
+		}
+	}
 }
 
 // gateAlloc lets the harness hold a message inside the allocator.
